@@ -43,7 +43,7 @@ CLAIMED['C19'] = dict(
    note='Python call protocol (argument passing) is checked on the Python side only; senders/callbacks are tokens in the model.',
    tech='Lean 4 theorems by invariant over operation histories (refinement to a history-based spec) + differential correspondence against /repo', ref='§5 C19')
 CLAIMED['C20'] = dict(
-   text='Theorems for every hash function, prior file state and pair of server scripts of any length: a normal return with an answered last checksum fetch leaves a file hashing to that checksum; a valid existing file is not refetched; at most two data requests, a second one exactly after a mismatch; persistent mismatch raises; an HTTP error on a data request never yields a normal return. '
+   text='Theorems for every hash function, prior file state and pair of server scripts of any length: a normal return with an answered last checksum fetch leaves a file hashing to that checksum; a valid existing file is not refetched; at most two data requests, a second one exactly after a mismatch; persistent mismatch raises; an HTTP error on a data request never yields a normal return; with a server whose checksum answer is fixed, every normal return leaves a file hashing to it (ok_with_fixed_checksum), the second data request happens iff the first post-download check fails (retry_iff) and the call raises iff a data request errors or both checks fail (raises_iff). '
         'Correspondence: the whole scripted space (3 priors x data scripts <= 3 x checksum scripts <= 3 over 4 answers) through the in-process `responses` mock, plus body sizes 0 B / 1 B / > 1 MiB.',
    note='requests, streaming and hashlib are outside the model; crash/partial-write behaviour is not modelled.',
    tech='Lean 4 theorems by exhaustive case analysis of the decision tree (symbolic in hash and script tails) + differential correspondence against /repo', ref='§5 C20')
@@ -68,7 +68,7 @@ CLAIMED['C06'] = dict(
    note='PCA route is partial: np.cov/eigh are outside the model; eigen-equation residual and ordering are tested numerically (a test, not a proof).',
    tech='Lean 4 theorems (scatter-fold invariant, lookup-table lemmas) + differential correspondence against /repo', ref='§5 C06')
 CLAIMED['C11'] = dict(
-   text='Theorems for any number of probes/spikes: merged origins are a permutation of all input spikes; merged times non-decreasing; stable: merged origins sorted lexicographically by (time, probe, index); every per-spike array gathered by the same order keeps each spike\'s value; cluster ids shifted by running offsets max+1 and template ids by offsets counting each probe\'s templates, ranges of different probes never collide; cluster_probes points back to the probe; renumbered metadata found under id + offset. '
+   text='Theorems for any number of probes/spikes: merged origins are a permutation of all input spikes; merged times non-decreasing; stable: merged origins sorted lexicographically by (time, probe, index); every per-spike array gathered by the same order keeps each spike\'s value; cluster ids shifted by running offsets max+1 and template ids by offsets counting each probe\'s templates, ranges of different probes never collide; cluster_probes points back to the probe; renumbered metadata found under id + offset and nothing else (metadata_points_back); the merged directory, read by the C04 loader model, loads with exactly the merged arrays (merged_dataset_loads). '
         'Correspondence: real Merger.merge() on 1..4 generated probes (ties inside/across probes, gapped ids, curated clusters, dtypes, TSVs in all/some/none), unique amplitude tokens identify spikes; input directories hashed before/after.',
    note='np.save/np.load/csv transport; same dtype across probes.',
    tech='Lean 4 theorems (stable insertion sort: permutation, sortedness, stability; prefix-sum offsets) + differential correspondence against /repo', ref='§5 C11')
@@ -99,7 +99,7 @@ CLAIMED['C10'] = dict(
    note='csv and number parsing are transport (foreign files are parsed with the csv module and cells classified by the harness before reaching the model); after close only reload follows.',
    tech='Lean 4 refinement of a finite-map disk model to an abstract last-write-wins state, by induction over histories + differential correspondence against /repo', ref='§5 C10')
 CLAIMED['C18'] = dict(
-   text='Theorems: encoder + object hook round-trip every value (nested lists/dicts, arrays of any dtype/rank/size, NumPy scalars) to its canonical form (arrays keep dtype, shape, values; non-complex 1-D arrays of <= 10 items become equal lists); integer top-level keys incl. negative stay integers (proved for the concrete decimal formatter/parser), non-integer-like string keys stay strings; TSV/CSV: read(write(rows)) returns every (field, value) pair of every row with absent fields omitted, requested first column first, for any renderer/parser pair that round-trips. '
+   text='Theorems: encoder + object hook round-trip every value (nested lists/dicts, arrays of any dtype/rank/size, NumPy scalars) to its canonical form (arrays keep dtype, shape, values; non-complex 1-D arrays of <= 10 items become equal lists); integer top-level keys incl. negative stay integers (proved for the concrete decimal formatter/parser), non-integer-like string keys stay strings; TSV/CSV: read(write(rows)) returns every (field, value) pair of every row with absent fields omitted, requested first column first, for any renderer/parser pair that round-trips on the cell domain (tsv_roundtrip_on), instantiated for decimal integers and alphabetic labels through str / int-or-text parsing (tsv_roundtrip_py). '
         'Correspondence: real save_json/load_json over all numeric dtypes, layouts, ranks, 9/10/11-item arrays, nested values; write_tsv/read_tsv with both delimiters and hostile strings; two-column tables and parameter files (Python side only).',
    note='json, csv, base64, number formatting/parsing and the Python parser are transport hypotheses exercised through the real libraries; simple tables and params.py are compared on the Python side only.',
    tech='Lean 4 theorems (mutual structural recursion over a JSON-like value type; list-level TSV model) + differential correspondence against /repo', ref='§5 C18')
